@@ -542,6 +542,10 @@ func (l *Lexer) shiftXML(rawTag Hash) []byte {
 				l.err = parse.NewErrorLexer(l.r, "unexpected NULL character")
 			}
 			return l.r.Shift()
+		} else if 0 < len(l.tmplBegin) && l.at(l.tmplBegin...) {
+			l.r.Move(len(l.tmplBegin))
+			l.moveTemplate()
+			l.hasTmpl = true
 		} else if quote != 0 {
 			// attribute value
 			if c == quote {
